@@ -806,7 +806,20 @@ def h_cursor_nth(how):
         n = p.args0[1][1] if len(p.args0) > 1 and p.args0[1][0] == 'int' else None
         g = p.st.ghost.get(('adv', mid))
         passed = g[0] if g else 0
-        ctx.req('OUT', z.entails_eq(b1, b0), nm, 'nth must not touch the back end of the iterator', p)
+        # positions reached by a jump (`rest = rest.get(n..)`): terms t with t = f0 + n, remembered on the side
+        def teq(x, y):
+            return (isinstance(x, int) and isinstance(y, int) and x == y) or x is y or z.entails_eq(x, y)
+        jumps = []
+        if len(p.args0) > 1 and p.args0[1][0] == 'int':
+            nn = p.args0[1][1]
+            for k, ab in p.st.loadcache.items():
+                if isinstance(k, tuple) and len(k) == 2 and k[0] == 'sum' and \
+                        ((teq(ab[0], f0) and teq(ab[1], nn)) or (teq(ab[1], f0) and teq(ab[0], nn))):
+                    jumps.append(k[1])
+            if teq(f0, 0):
+                jumps.append(nn)
+        if not is_none(p.val):
+            ctx.req('OUT', z.entails_eq(b1, b0), nm, 'nth must not touch the back end of the iterator', p)
         if owned:
             lo, hi = ms.extra_rng
             ctx.req('ONCE', slots.empty(z, ms.extra_rng) or z.entails_le(f1, lo), nm,
@@ -816,7 +829,8 @@ def h_cursor_nth(how):
             ctx.classes['none'] += 1
             ctx.req('OUT', z.entails_le(b1, f1), nm + ':none', 'None may be returned only when the iterator is exhausted afterwards', p)
             short = any(e[0] == 'nth-short' for e in p.events)
-            ctx.req('ONCE', short or (n is not None and z.entails_le(passed, n)), nm + ':none',
+            jumped = any(z.entails_le(b0, t) for t in jumps)       # b0 <= f0 + n: at most n elements remained
+            ctx.req('ONCE', short or jumped or (n is not None and z.entails_le(passed, n)), nm + ':none',
                     'None may be returned only when fewer than n + 1 elements remained (passed: %s)' % (passed,), p)
             return
         ctx.classes['some'] += 1
@@ -830,7 +844,8 @@ def h_cursor_nth(how):
                 break
         ok = item is not None and idx is not None and proj_ok(p, item, mid, idx, how)
         ctx.req('OUT', ok, nm + ':some', 'the item must be the stated projection of the element right in front of the cursor', p)
-        ctx.req('ONCE', n is not None and z.entails_eq(passed, n, 1), nm + ':some',
+        jumped = any(z.entails_eq(f1, t, 1) for t in jumps)        # f1 = f0 + n + 1
+        ctx.req('ONCE', jumped or (n is not None and z.entails_eq(passed, n, 1)), nm + ':some',
                 'exactly n + 1 elements must have been passed (n skipped, one yielded; passed: %s)' % (passed,), p)
     return h
 
